@@ -676,6 +676,7 @@ glue('}')
 SPEC('wb_lemmas2.rs')
 SPEC('wb_union.rs')
 
+SPEC('wb_iter.rs')
 MAPGLUE()
 API = {}
 exec(open(__import__('os').path.join(__import__('os').path.dirname(__import__('os').path.abspath(A_FILE)), 'wbmap_api.py')).read(), API)
@@ -790,3 +791,62 @@ emit(t)
 
 glue('}')
 SPEC('wb_tail.rs')
+# ---- shared iteration: Iter / descend_left / next / WBTreeMap::iter
+emit_plain(src.item(r"pub struct Iter<'a, V: Clone>", name='Iter'))
+ITER = src.item(r"impl<'a, V: Clone> Iter<'a, V>\s*\{", name='Iter')
+glue(ITER.header(), 'impl Iter header (from source)')
+glue('''
+    /// the items this iterator state will still yield (keys already mapped), in order
+    pub closed spec fn rem(&self) -> Seq<(u32, V)> {
+        (match self.current { Some(t) => inorder_m(*t, derefs(self.current_mappings@)), None => Seq::empty() }) + stack_rem(self.stack@)
+    }
+    pub closed spec fn cur_weight(&self) -> nat { match self.current { Some(t) => 2 * nodes(*t) + 1, None => 0 } }
+    pub closed spec fn measure(&self) -> nat { self.cur_weight() + stack_nodes(self.stack@) }
+''', 'Iter ghost members')
+t=I(ITER, 'descend_left')
+t.sig(spec='''ensures final(self).current is None, final(self).rem() == old(self).rem(), final(self).measure() <= old(self).measure(),''')
+t.loop(1, '''invariant self.rem() == old(self).rem(), self.measure() <= old(self).measure(),
+            ensures self.current is None,
+            decreases self.cur_weight(),''')
+t.before('            match opt_node {', 'let ghost s0 = *self;')
+t.after('self.current = Some(&data_node.left);', '''proof {
+                        let cm = derefs(s0.current_mappings@);
+                        assert(derefs(self.stack@.last().1@) =~= cm);
+                        lemma_stack_push(s0.stack@, self.stack@.last());
+                        assert(self.stack@ =~= s0.stack@.push(self.stack@.last()));
+                        assert(self.rem() =~= s0.rem());
+                    }''')
+t.after('self.current = Some(&mapping_node.child);', '''proof {
+                        assert(derefs(self.current_mappings@) =~= derefs(s0.current_mappings@).push(mapping_node.mapping));
+                        assert(self.rem() =~= s0.rem());
+                    }''')
+t.before('                    return;', '''proof { assert(self.rem() =~= s0.rem()); }''')
+emit(t)
+glue('}', 'impl close')
+glue('''
+impl<'a, V: Clone> vstd::std_specs::iter::IteratorSpecImpl for Iter<'a, V> {
+    // the laws hold in EVERY state of the iterator (also over lazily mapped subtrees), so no well-formedness side condition is needed
+    open spec fn obeys_prophetic_iter_laws(&self) -> bool { true }
+    closed spec fn remaining(&self) -> Seq<(u32, &'a V)> { Seq::new(self.rem().len(), |i: int| (self.rem()[i].0, &self.rem()[i].1)) }
+    open spec fn will_return_none(&self) -> bool { true }
+    closed spec fn decrease(&self) -> Option<nat> { Some(self.rem().len()) }
+    closed spec fn peek(&self, i: int) -> Option<(u32, &'a V)> { if 0 <= i < self.rem().len() { Some((self.rem()[i].0, &self.rem()[i].1)) } else { None } }
+}
+''', 'IteratorSpecImpl for Iter (ghost)')
+ITN = src.item(r"impl<'a, V: Clone> Iterator for Iter<'a, V>\s*\{", name='Iter')
+glue(ITN.header(), 'impl Iterator for Iter header (from source)')
+emit_plain(src.item(r"type Item = \(u32, &'a V\);", name='Iter::Item', within=ITN))
+t=I(ITN, 'next')
+t.loop(1, '''invariant self.rem() == old(self).rem(),
+            decreases self.measure(),''')
+t.after('self.descend_left();', 'let ghost s1 = *self;')
+t.after('self.current = Some(&data_node.right);', '''proof {
+                    let e = (data_node, mappings);
+                    assert(s1.stack@ =~= self.stack@.push(e));
+                    lemma_stack_push(self.stack@, e);
+                    assert(derefs(self.current_mappings@) =~= derefs(mappings@));
+                    assert(s1.rem() =~= opt1(key_m(derefs(mappings@), data_node.key), data_node.value) + self.rem());
+                }''')
+emit(t)
+glue('}', 'impl close')
+
